@@ -262,6 +262,53 @@ def gen_history(rng, pools, tier):
     ops = []
     slots = {}
     nslot = 0
+    # scenario templates: interaction shapes that pure random drawing reaches too rarely.  They only
+    # seed the beginning of the history; the random tail follows.
+    tmpl = rng.random()
+    if tmpl < 0.30:
+        L, s0 = rng.choice(strings)
+        var = rng.choice([v for v in variants if v] or [draw_settings(rng, langs)])
+        P = pools["langs"].get(L) or {}
+        refdep = rng.choice((P.get("rel") or [])[:4] + (P.get("relre") or [])[:3] + ["%02d:%02d" % (rng.randrange(24), rng.randrange(60)), s0])
+        if tmpl < 0.12:
+            # T1 live instance x an equal-but-distinct settings dict used by another entry point
+            nslot += 1
+            slots[nslot] = {"languages": [L], "settings": copy.deepcopy(var)}
+            ops.append({"op": "new_parser", "slot": nslot, "kw": slots[nslot], "clock_us": clock()})
+            L2 = rng.choice(langs)
+            mid = rng.choice(["search", "search", "parse", "failing", "new_parser"])
+            if mid == "search":
+                ops.append({"op": "search", "text": draw_text(rng, pools, L2), "kw": {"languages": [L2], "settings": copy.deepcopy(var)}, "clock_us": clock()})
+            elif mid == "parse":
+                ops.append({"op": "parse", "s": draw_string(rng, pools, L2), "kw": {"languages": [L2], "settings": copy.deepcopy(var)}, "clock_us": clock()})
+            elif mid == "failing":
+                ops.append({"op": "parse", "s": "9999-12-31 23:59 -0500", "kw": {"languages": [L2, "tl"][: rng.choice([1, 2])], "settings": dict(copy.deepcopy(var), TIMEZONE="UTC")}, "clock_us": clock()})
+            else:
+                nslot += 1
+                slots[nslot] = {"languages": [L2], "settings": copy.deepcopy(var)}
+                ops.append({"op": "new_parser", "slot": nslot, "kw": slots[nslot], "clock_us": clock()})
+            ops.append({"op": "get_date_data", "slot": 1, "ctor": slots[1], "s": refdep, "clock_us": clock()})
+        elif tmpl < 0.22:
+            # T2 custom-settings traffic, then default-settings calls that read the module default
+            for _ in range(rng.choice([1, 2])):
+                Lx, sx = rng.choice(strings)
+                ops.append({"op": rng.choice(["parse", "parse", "search"]), "s": sx, "text": sx, "kw": {"languages": [Lx], "settings": copy.deepcopy(var)}, "clock_us": clock()})
+            for o in ops:
+                if o["op"] == "search":
+                    o.pop("s")
+                else:
+                    o.pop("text")
+            ops.append(dict(rng.choice(CAL), clock_us=clock()))
+            ops.append({"op": "parse", "s": rng.choice(["02/03/2012", refdep, s0]), "kw": {"languages": [rng.choice(["tl", L])]}, "clock_us": clock()})
+        else:
+            # T3 a call that fails inside the parsers, then order-sensitive default-order calls
+            Lx = rng.choice([l for l in langs if l != "en"] or ["fr"])
+            Px = pools["langs"].get(Lx) or pools["langs"]["fr"]
+            mm = rng.choice([2, 4, 6, 9, 11])
+            bad = "31 %s %d" % ((Px["months"][mm - 1] or [str(mm)])[0], rng.randrange(2000, 2030))
+            ops.append({"op": "parse", "s": rng.choice([bad, "31/02/2015", "9999-12-31 23:59 -0500"]), "kw": {"languages": [Lx]} if rng.random() < 0.8 else {"languages": [Lx], "settings": {"TIMEZONE": "UTC"}}, "clock_us": clock()})
+            ops.append(dict(rng.choice(CAL[:3]), clock_us=clock()))
+            ops.append({"op": "parse", "s": "%02d/%02d/%d" % (rng.randrange(1, 13), rng.randrange(1, 13), rng.randrange(2000, 2030)), "kw": {"languages": ["tl"]}, "clock_us": clock()})
     for i in range(n):
         r = rng.random()
         L, s = rng.choice(strings)
